@@ -183,13 +183,18 @@ def pox_namespace ():
   return P
 
 
+_INSIDE = {}
+
 def exc_site (P, e):
   """basename:qualified function:exception type of the innermost frame inside the POX tree."""
   tb = e.__traceback__
   last = None
   while tb is not None:
     fn = tb.tb_frame.f_code.co_filename
-    if os.path.realpath(fn).startswith(P.root):
+    inside = _INSIDE.get(fn)
+    if inside is None:
+      inside = _INSIDE[fn] = os.path.realpath(fn).startswith(P.root)
+    if inside:
       last = tb.tb_frame.f_code
     tb = tb.tb_next
   t = type(e)
